@@ -1123,10 +1123,15 @@ class PyCdlib:
                                                 new_record.rock_ridge.bytes_to_skip,
                                                 True, new_record.file_identifier())
                     cdfp.seek(orig_pos)
-                    block = self.pvd.track_rr_ce_entry(ce_record.bl_cont_area,
-                                                       ce_record.offset_cont_area,
-                                                       ce_record.len_cont_area)
-                    new_record.rock_ridge.update_ce_block(block)
+                    if not (dir_record.is_root and new_record.is_dot()):
+                        # The continuation area of the root 'dot' record holds
+                        # the ER entry; it always gets a block of its own when
+                        # extents are assigned, so it must not be offered to
+                        # other records as a block with free space.
+                        block = self.pvd.track_rr_ce_entry(ce_record.bl_cont_area,
+                                                           ce_record.offset_cont_area,
+                                                           ce_record.len_cont_area)
+                        new_record.rock_ridge.update_ce_block(block)
                     # The version can only be inferred once the entries in the
                     # continuation area (e.g. a 44-byte PX record) are known.
                     rr = new_record.rock_ridge.rr_version
